@@ -101,6 +101,7 @@ def rules(rep, idx, fixture):
     if not fixture:
         from .c20 import plain_member_directions
         plain_member_directions(rep, idx, "C19.13")
+        clamped_pattern_width(rep, idx)
     if not fixture:
         from . import glue as _glue
         _glue.param_refusals(rep, "C19.12", idx)
@@ -1186,3 +1187,80 @@ def joins(rep, idx):
                         rep.unk("C19.6", f.site, what, f"`{a.id}` is not known to hold strings only")
                 else:
                     rep.unk("C19.6", f.site, what, "unrecognised join argument")
+
+
+# ---- C19.14 ----------------------------------------------------------------------------------------------
+def clamped_pattern_width(rep, idx):
+    """wishbone.Decoder decodes `self.bus.adr` (addr_width bits, from wishbone.Signature) against the patterns of its memory
+    map's windows, which are as wide as the *map* (MemoryMap.window_patterns: constant bits + '-' * window.addr_width =
+    map.addr_width characters), less the bits the decoder trims for the granularity ratio.  Amaranth refuses a Case pattern
+    whose width differs from the Switch subject (SyntaxError at elaboration).  The two widths agree when
+    map.addr_width == addr_width + granularity bits; a lower clamp max(K, ...) on the map's width breaks the agreement
+    for every accepted parameter combination with addr_width + granularity bits < K."""
+    from .common import get_ctor, get_ctx
+    try:
+        cls = idx.find_class("wishbone/bus:Decoder")
+    except Exception:
+        return
+    ctor = get_ctor(idx, cls)
+    el = get_ctx(idx, cls.method("elaborate"))
+    site = el.fi.site
+    what = "Case patterns from the memory map are as wide as Switch(self.bus.adr)"
+    mm = ctor.stored("self.bus.memory_map")
+    sws = [sid for sid, s in el.t.switches.items() if el.norm(s) == el.parse("self.bus.adr")]
+    from_map = any(el.norm(L.iter) == el.parse("self.bus.memory_map.window_patterns()") for L in el.t.loops.values())
+    if mm is None or mm[0] != 'call' or not sws or not from_map:
+        rep.unk("C19.14", site, what, "the decoder no longer stores MemoryMap(...) in its constructor or no longer decodes self.bus.adr with "
+                "window_patterns(); the width agreement is not read off")
+        return
+    aw = dict(mm[3]).get('addr_width')
+    gran = ctor.norm(ir.parse("exact_log2(data_width // granularity)"))
+    E = ctor.norm(ir.parse("addr_width + exact_log2(data_width // granularity)"))
+    # the phi over `granularity is None` may have been resolved into the expression; compare modulo that default
+    def strip_default(e):
+        return ir.subst(e, lambda x: x[3] if x[0] == 'phi' and x[2] == ('name', 'data_width') and x[3] == ('name', 'granularity') else
+                        (x[2] if x[0] == 'phi' and x[3] == ('name', 'data_width') and x[2] == ('name', 'granularity') else None))
+    # self.bus.<p> is the constructor parameter <p> when the port's signature is created with <p>=<p>
+    alias = {}
+    for n in ast.walk(cls.method("__init__").node):
+        if isinstance(n, ast.Call) and ast.unparse(n.func).split(".")[-1] == "Signature":
+            for k in n.keywords:
+                if k.arg and isinstance(k.value, ast.Name):
+                    alias[('attr', ('attr', ('name', 'self'), 'bus'), k.arg)] = ('name', k.value.id)
+
+    def unalias(e):
+        return ir.subst(e, lambda x: alias.get(x))
+    awn = ctor.norm(strip_default(unalias(ctor.norm(aw)))) if aw is not None else None
+    if awn is not None:
+        # self.bus.granularity is the defaulted granularity: with the default resolved, data_width // granularity
+        awn = ir.resort(ctor.norm(strip_default(awn)))
+        if awn[0] == 'call' and awn[1] == ('name', 'max'):
+            awn = (awn[0], awn[1], tuple(ir.resort(a) for a in awn[2]), awn[3])
+    E = ir.resort(E)
+    if awn == E:
+        rep.ok("C19.14", site, what, "map.addr_width == addr_width + granularity bits for every accepted parameter combination")
+        return
+    if awn is not None and awn[0] == 'call' and awn[1] == ('name', 'max') and len(awn[2]) == 2 and E in awn[2] and \
+            any(a[0] == 'const' and isinstance(a[1], int) for a in awn[2]):
+        K = next(a[1] for a in awn[2] if a[0] == 'const')
+        # is addr_width + granularity bits < K refused?  wishbone.Signature refuses addr_width < B
+        sig = idx.find_func("wishbone/bus:Signature.__init__")
+        bound = None
+        for n in ast.walk(sig.node):
+            if isinstance(n, ast.If) and any(isinstance(s, ast.Raise) for s in n.body):
+                for x in ir.walk(ir.norm(ir.from_ast(n.test, {}))):
+                    if x[0] == 'cmp' and x[1] == '<' and x[2] == ('name', 'addr_width') and x[3][0] == 'const':
+                        bound = x[3][1]                 # addr_width < B raises: accepted addr_width >= B
+                    if x[0] == 'cmp' and x[1] == '<' and x[3] == ('name', 'addr_width') and x[2][0] == 'const':
+                        pass
+        lowest = bound if isinstance(bound, int) else None
+        if lowest is not None and lowest >= K:
+            rep.ok("C19.14", site, what, f"the clamp max({K}, ...) is never active: addr_width < {lowest} is refused")
+            return
+        rep.bad("C19.14", site, "Switch(self.bus.adr) patterns vs clamped map width",
+                f"the memory map is created {ir.show(awn)[:70]} bits wide while self.bus.adr is addr_width bits wide: for the accepted parameters "
+                f"addr_width={lowest if lowest is not None else 0}, data_width == granularity the map is {K} bit wide, a window pattern has {K} character(s) "
+                "and the subject 0 bits -- add() accepts the subordinate and elaborate() fails with SyntaxError (pattern width)",
+                line=cls.method("__init__").node.lineno)
+        return
+    rep.unk("C19.14", site, what, f"map.addr_width is {ir.show(awn) if awn else None}; its agreement with addr_width + granularity bits is not decided")
